@@ -198,17 +198,14 @@ Lemma pool_cases s j l s' : pool_step s j l = Some s' ->
   (exists nt b, pp s j = PWaiting nt /\ implb b nt = true /\ s' = set_pp s j PExit b) \/
   (pp s j = PExit /\ s' = set_pp s j PDone (pres s j)).
 Proof.
-  unfold pool_step. intros H. destruct (pp s j) as [| |nt| |] eqn:Hp; try (destruct l; discriminate).
-  - destruct l as [| | |e|e timed| | | | | | | | | | | | | | | | | | | | | |]; try discriminate.
-    + destruct e as [| |k|]; try discriminate. destruct (Nat.eqb j k && pf s j) eqn:E; [|discriminate].
-      apply andb_true_iff in E as [_ E]. inversion H. left. auto.
-    + destruct e as [| |k|]; try discriminate. destruct timed; [|discriminate].
-      destruct (Nat.eqb j k && negb (pf s j)); [|discriminate]. inversion H. right. left. auto.
-  - destruct l as [| | | | |e b| | | | | | | | | | | | | | | | | | | | |]; try discriminate.
-    destruct e as [| |k|]; try discriminate. destruct (Nat.eqb j k && implb b nt) eqn:E; [|discriminate].
-    apply andb_true_iff in E as [_ E]. inversion H. right. right. left. exists nt, b. auto.
-  - destruct l as [| | | | | | | | |r| | | | | | | | | | | | | | | | |]; try discriminate.
-    destruct r; [discriminate|]. inversion H. right. right. right. auto.
+  unfold pool_step. intros H. destruct (pp s j) as [| |nt| |] eqn:Hp; destruct l; try discriminate;
+    repeat match type of H with context [match ?x with _ => _ end] => destruct x eqn:?; try discriminate end;
+    inversion H; subst; clear H;
+    repeat match goal with Hx : (_ && _) = true |- _ => apply andb_true_iff in Hx; destruct Hx end.
+  - left. auto.
+  - right. left. auto.
+  - right. right. left. eexists _, _. eauto.
+  - right. right. right. auto.
 Qed.
 
 Lemma inv_pool s j l s' : Inv s -> pool_step s j l = Some s' -> Inv s'.
